@@ -52,11 +52,11 @@ def random_config(rng, force=None):
 
 def frame_to_server_side(rng, n):
     """a packet a client application sends out through the tunnel (server writes it to its tun)"""
-    return C.ip_packet(0x08080808, bytes(rng.randrange(256) for _ in range(n)), src_ip=CLIENT_TUN_IP)
+    return C.ip_packet(0x08080808, bytes(rng.randrange(256) for _ in range(n)), src_ip=CLIENT_TUN_IP, ident=rng.randrange(1 << 16))
 
 
 def frame_to_client(rng, n):
-    return C.ip_packet(CLIENT_TUN_IP, bytes(rng.randrange(256) for _ in range(n)), src_ip=0x08080808)
+    return C.ip_packet(CLIENT_TUN_IP, bytes(rng.randrange(256) for _ in range(n)), src_ip=0x08080808, ident=rng.randrange(1 << 16))
 
 
 SIZES = [0, 1, 20, 100, 600, 1400, 3000, 9000]
@@ -76,6 +76,24 @@ def one_world(args):
     out["handshake"] = hs
     out["negotiated"] = {k: w.c_state.get(k) for k in ("qt", "enc", "dn", "lazy", "e0", "conn")}
     sent_c, sent_s = [], []
+    if hs == ("ret", 0) and scenario == "reuse":
+        # the first client (on a transparent path: wide codecs) works for a while and is stopped; more than 60 s later the same user slot is
+        # given to a client that sits behind `relay` and has to get by with what that path lets through
+        w.start_tunnel()
+        f = frame_to_server_side(rng, 100); w.offer_to_client(f); w.settle(8000)
+        out["first_negotiated"] = {k: w.c_state.get(k) for k in ("qt", "enc", "dn", "lazy", "e0", "conn")}
+        w.tunw_s, w.tunw_c, w.accepted_c, w.accepted_s = [], [], [], []
+        w.c.close(); w.c = world.NullCli(); w.c_sel = w.c_deadline = None
+        w.up, w.down = [], []
+        t_end = w.ms + rng.choice([61000, 70000, 200000])
+        w.run_until(lambda: w.ms >= t_end, 200000)
+        w.ms = max(w.ms, t_end); w.set_time()
+        w.new_client(relay=world.Relay(rng=rng, **cfg["second_relay"]), qtype=cfg["qtype"], downenc=cfg["downenc"], lazy=cfg["lazy"], maxlen=cfg["maxlen"],
+                     seltimeout=cfg["seltimeout"], autofrag=cfg["autofrag"], fragsize=cfg["fragsize"])
+        out["relay"] = w.relay.describe()
+        hs = w.handshake(400000)
+        out["handshake"] = hs
+        out["negotiated"] = {k: w.c_state.get(k) for k in ("qt", "enc", "dn", "lazy", "e0", "conn")}
     if hs == ("ret", 0):
         w.start_tunnel()
         t0 = w.ms
@@ -84,6 +102,19 @@ def one_world(args):
             w.faulty_until = t0 + fault["ms"]
         # offer packets on both sides, spread over the faulty period and after it
         sizes = SIZES if scenario not in ("auto", "forced") else [0, 1, 20, 60, 100]
+        if cfg["raw_mode"] and not real_z:
+            # send_raw cuts a frame at 4096 bytes; the real zlib then refuses the cut image, the transparent test compression would not
+            sizes = [n for n in sizes if n <= 3000]
+        if scenario == "fullsize":
+            # full-length queries going up while full-size fragments come down: what the fragment-size probe promised must hold then too
+            for i in range(3):
+                for f in (frame_to_client(rng, 900), frame_to_client(rng, 900)):
+                    sent_s.append((w.ms, f)); w.offer_to_server(f)
+                f = frame_to_server_side(rng, 900); sent_c.append((w.ms, f)); w.offer_to_client(f)
+                w.settle(25000)
+                if w.dead():
+                    break
+            nframes = 0
         if scenario in ("uponly", "downonly", "idle"):
             # clean path for longer than the 60 s give-up timers: traffic in one direction only (or none at all), then one packet each way
             for i in range(24):
@@ -100,6 +131,10 @@ def one_world(args):
             nframes = 2
         for i in range(nframes):
             n = rng.choice(sizes)
+            fsn = [int(s_.slots[0]["fs"]) for s_ in w.s.steps[-20:] if s_.slots and 0 in s_.slots]
+            if fsn and rng.random() < 0.3 and scenario in ("clean", "integrity", "recovery"):
+                # a compressed image (transparent scheme: frame + 1 byte) of exactly 1..3 downstream fragments
+                n = min(9000, max(0, rng.choice([1, 2, 3]) * fsn[-1] - 25))
             if rng.random() < 0.5:
                 f = frame_to_server_side(rng, n); sent_c.append((w.ms, f)); w.offer_to_client(f)
             else:
@@ -131,6 +166,8 @@ def one_world(args):
     out["dead"] = (("server" if w.s.dead else "client"), d[0][:200], d[1], d[2][-1500:]) if d else None
     out["log"] = w.replay_lines()
     out["cops"], out["clines"] = list(w.c.ops), list(w.c.lines)
+    out["sops"], out["slines"] = [s_.op for s_ in w.s.steps], [s_.line for s_ in w.s.steps]
+    out["real_z"] = real_z
     w.close()
     return out
 
@@ -217,6 +254,47 @@ def report_client_model(chk, res, prop):
                       % (seed, i, prop, o[:200], a[:500], b[:500]), ["# correspondence Client.cstep vs client.c no longer checks; model ops up to the first difference:"] + pre, no_input=True)
 
 
+def report_server_model(chk, res, prop):
+    """the server half of every (test-compression) world run through the Lean server model: events and the full slot digest of every loop
+    iteration the real iodined made while talking to the real client"""
+    import srvcheck
+    n, nd, first = 0, 0, None
+    for r in res:
+        if r.get("real_z") or not r.get("sops"):
+            continue
+        d = srvcheck.model_diff(chk, r["sops"], r["slines"])
+        if d is None:
+            if not chk.violations:
+                chk.violation("model driver does not build", ["# lake build iodmodel failed"], no_input=True)
+            return
+        n += len(r["sops"]); nd += d[0]
+        if d[1] and first is None:
+            first = (r, d[1])
+    chk.notes["server_model_ops_compared"] = n
+    chk.notes["server_model_diffs"] = nd
+    if first is not None and not chk.violations:
+        r, (i, mop, a, b) = first
+        chk.violation("correspondence broken (Server.* vs iodined.c, server side of a world run): model and implementation differ on %d ops; the oracle found no violation of %s.\nfirst: server op %d of world seed %d: %s\n impl:  %s\n model: %s"
+                      % (nd, prop, i, r["seed"], mop[:200], a[:600], b[:600]),
+                      ["# correspondence Server.iteration vs iodined.c tunnel() no longer checks; server ops up to the first difference:"] + r["sops"][:i + 1], no_input=True)
+
+
+def report_rseq(chk, prop):
+    """recent_seqno (common.c), used by both reassemblers: exhaustive differential over -12..24 x -12..24 against both models' copies"""
+    drv = chk.driver()
+    if drv is None:
+        return
+    exe = vlib.build_harness("h_pure", ["h_pure.c"], vlib.PURE_OBJS)
+    ops = ["rseq %d %d" % (a, b) for a in range(-12, 25) for b in range(-12, 25)]
+    c, m = vlib.run_lines(exe, ops), vlib.run_lines(drv, ops)
+    bad = [(o, x, y) for o, x, y in zip(ops, c.lines, m.lines) if x != y]
+    chk.notes["recent_seqno_pairs_compared"] = len(ops)
+    if (bad or c.rc != 0 or len(c.lines) != len(ops)) and not chk.violations:
+        o, x, y = bad[0] if bad else ("(harness aborted)", c.stderr[-300:], "")
+        chk.violation("correspondence broken (recentSeqno vs recent_seqno in common.c): `%s` gives %s in the implementation, %s in the model (%d of %d pairs differ); the oracle found no violation of %s"
+                      % (o, x, y, len(bad), len(ops), prop), ["# correspondence recentSeqno vs common.c recent_seqno no longer checks"] + [b[0] for b in bad[:20]], no_input=True)
+
+
 def run_worlds(jobs):
     import os
     vlib.build_srv(); vlib.build_cli()        # build once here; the workers then find the cached binaries
@@ -236,6 +314,22 @@ def integrity_violations(res):
         if f not in offered_s:
             bad.append("the client wrote a %d-byte packet to its tun device that the server never read from its own (at %d ms)" % (len(f), t))
     return bad
+
+
+def fragments_needed(frame, res, upstream):
+    """rough count of fragments for a frame (test compression = 1 byte longer)"""
+    size = len(frame) + 1
+    if res["negotiated"].get("conn") == "0":
+        return 1
+    if upstream:
+        k = {"b32": 5, "b64": 6, "b64u": 6, "b128": 7}.get(res["negotiated"].get("enc"), 5)
+        L = res["cfg"]["maxlen"]
+        space = L - len(b"t.example.com") - 8
+        space -= space // 57
+        per = max(1, space * k // 8)
+    else:
+        per = max(1, min(res.get("fs", 100), 4094))
+    return -(-size // per)
 
 
 def max_fragments(res, frame, upstream):
